@@ -61,6 +61,22 @@ class LinkPair:
         self.tx.open_tx_pipe(rx_address(pipe, aw))
         self.s.advance(300_000)
         self.nack = 0
+        # a third, unrelated radio object of the same program (another chip, another link) configured afterwards and
+        # differently: what one object is told never changes what another object does
+        if c.get("decoy", True):
+            d, _ = sim.new_radio(self.air, "decoy", cls=RF24)
+            with d:
+                d.channel = 9
+                d.address_length = 3 if aw != 3 else 4
+                d.dynamic_payloads = not c.get("dyn", True)
+                d.payload_length = 5 if c.get("pl", 32) != 5 else 7
+                d.set_auto_ack(False, 0)
+                d.set_auto_retries(250, 1)
+                d.crc = 1
+                d.open_rx_pipe(1, b"dcoy1")
+                d.open_rx_pipe(0, b"dcoy0")
+                d.open_tx_pipe(b"dcoyT")
+            self.s.advance(100_000)
 
     def tla_cfg(self):
         c = self.cfg
